@@ -58,7 +58,8 @@ int main(int argc, char **argv) {
 			vh::Decoration d; d.seed = rng.next();
 			d.names = rng.chance(1, 2); d.areas = rng.chance(1, 2); d.comments = rng.chance(1, 3); d.copies = rng.chance(1, 2); d.attribs = rng.chance(1, 3); d.taps = rng.chance(1, 4);
 			if (!d.any()) d.names = true;
-			std::cout << "twin " << t << " names=" << d.names << " areas=" << d.areas << " comments=" << d.comments << " copies=" << d.copies << " attribs=" << d.attribs << " taps=" << d.taps << " dseed=" << d.seed << '\n';
+			d.chains = (d.seed % 5 == 0); // taken from the seed so that the other random choices keep their stream
+			std::cout << "twin " << t << " names=" << d.names << " areas=" << d.areas << " comments=" << d.comments << " copies=" << d.copies << " attribs=" << d.attribs << " taps=" << d.taps << " chains=" << d.chains << " dseed=" << d.seed << '\n';
 			TwinResult r = runTwin(recipe, d, stimSeed, ncycles, withUndef, minimal);
 			if (!r.ok) { std::cout << "terr " << t << ' ' << r.err << '\n'; continue; }
 			std::cout << "tnodes " << t << ' ' << r.nodesPre << ' ' << r.nodesPost << '\n';
